@@ -28,6 +28,7 @@ func TestMain(m *testing.M) {
 	vh.Assume("simple-form domain = what strconv.Quote leaves unescaped (strconv.IsPrint) minus ' \" ` and backslash: FormatSimple writes values with %q and ParseSimple documents plain surrounding quotes without escape processing, so anything %q escapes (control, format, non-ASCII space characters) is outside the claim")
 	vh.Assume("URI form: ParseURI never fills a `scheme` member and Parse only recognises a URI by \"://\"; dsn.Info/tds.Info have no scheme, so their FormatURI output (\"//user:...\", pinned by the library's tests) is parsed back with ParseURI; Parse is exercised on ExtScheme, whose scheme member is not compared")
 	vh.Rule("also: batches of 2..8 round-trip / override cases run in goroutines at the same time (separate race-detector run)")
+	vh.Rule("also: the target struct has alias lists with an empty element (multiref:\"alpha,al,\" and multiref:\"\")")
 	vh.Main(m, "C17")
 }
 
